@@ -207,7 +207,7 @@ class DAGRunConcurrentManager(DAGRunManagerLike):
                     )
 
         else:
-            kwargs = self.ctx.input_kwargs
+            kwargs = dict(self.ctx.input_kwargs)
 
         additional_data = self.dag.graph.nodes[node_id].get(NodeField.additional_data)
 
